@@ -687,4 +687,8 @@ func runConcCase(r *run.R, idx int, race bool, merge func(map[string]int)) {
 	if len(c.viols) == 0 {
 		r.Nontrivial(caseID)
 	}
+	if idx == 0 {
+		r.Sample(map[string]any{"case": caseID, "kind": "concurrent", "workers": nw, "phases": phases, "ops_per_worker_and_phase": opsPerPhase,
+			"config": c.cfg.describe(), "counters": c.cnt})
+	}
 }
